@@ -87,3 +87,54 @@ contract("C11.conversion_factor_of_prefixed_unit", file=H, func="UnitEntry._get_
                                                            " result == float_of(b))",
          },
          assume=["float(text) is the partial uninterpreted function float_of on texts with float_parses (NaN not modelled; reals)"])
+
+# C11 "accepted exactly as the schema defines them": a value with extra text between the number and a valid trailing unit
+# ('3 4 m', '2 k Hz') is reported as invalid units; a value without a recognised unit gets the missing-units note
+CU = "hed/validator/util/class_util.py"
+class_model("UnitRuleTag", {"unit_class_tag": "Bool", "default_unit": "Opaque"})
+class_model("UnitValueValidator", {})
+try:
+    import z3 as _z3
+    from pyvc.vals import SV as _SV, STR as _STR, TOpt as _TOpt, sort_of as _sort_of
+
+    def _sv_of(interp, args, kwargs):
+        f = _z3.Function("stripped_value_of", _z3.IntSort(), _z3.StringSort(), _z3.StringSort())
+        return _SV(_STR, f(args[0].t, interp.ctx.strs.to_native(args[1])))
+
+    def _su_of(interp, args, kwargs):
+        ty = _TOpt(_STR)
+        f = _z3.Function("stripped_unit_of", _z3.IntSort(), _z3.StringSort(), _sort_of(ty))
+        return _SV(ty, f(args[0].t, interp.ctx.strs.to_native(args[1])))
+    EXTERNS["stripped_value_of"] = _sv_of
+    EXTERNS["stripped_unit_of"] = _su_of
+except ImportError:
+    pass
+EXTERNS["UnitRuleTag.is_unit_class_tag"] = lambda interp, args, kwargs: interp.field_read(args[0], "unit_class_tag")
+contract("C11.get_stripped_unit_value", file=T, func="HedTag.get_stripped_unit_value",
+         params={"self": "UnitRuleTag", "extension_text": "Str"}, returns="Tuple[Str,Opt[Str]]", enc="native", trusted=True,
+         self_class="UnitRuleTag",
+         ensures={"named": "result[0] == stripped_value_of(self, extension_text) and result[1] == stripped_unit_of(self, extension_text)"},
+         assume=["get_stripped_unit_value is a deterministic function of the tag and the text (its split rule is C11.get_tag_units_portion)"])
+contract("C11.check_value_class", file=CU, func="UnitValueValidator._check_value_class",
+         params={"self": "UnitValueValidator", "original_tag": "UnitRuleTag", "stripped_value": "Str", "report_as": "Opt[UnitRuleTag]",
+                 "error_code": "Opt[Str]", "index_offset": "Int"}, returns="List[Issue]", enc="native", trusted=True,
+         ensures={"no_unit_kinds": "all_in(result, lambda x: x.kind != 'UNITS_INVALID' and x.kind != 'UNITS_MISSING')"})
+contract("C11.check_units", file=CU, func="UnitValueValidator._check_units",
+         params={"original_tag": "UnitRuleTag", "bad_units": "Bool", "report_as": "Opt[UnitRuleTag]"}, returns="List[Issue]", enc="native",
+         ensures={"C11.units.invalid_or_missing_note": "len(result) == 1 and result[0].kind == ('UNITS_INVALID' if bad_units else 'UNITS_MISSING')"
+                                                       " and result[0].code == result[0].kind and result[0].severity == (1 if bad_units else 10)"})
+EXTERNS["UnitRuleTag.get_tag_unit_class_units"] = lambda interp, args, kwargs: __import__("pyvc.vals", fromlist=["Opaque"]).Opaque("units", fresh=True)
+contract("C11.unit_rule", file=CU, func="UnitValueValidator.check_tag_unit_class_units_are_valid",
+         params={"self": "UnitValueValidator", "original_tag": "UnitRuleTag", "validate_text": "Str", "report_as": "Opt[UnitRuleTag]",
+                 "error_code": "Opt[Str]", "index_offset": "Int"}, returns="List[Issue]", enc="native",
+         requires=["error_code is None"],
+         lets={"sv": "stripped_value_of(original_tag, validate_text)", "unit": "stripped_unit_of(original_tag, validate_text)"},
+         ensures={
+             "C11.units.extra_text_before_the_unit_is_invalid": "implies(original_tag.unit_class_tag and ' ' in sv, any_in(result, lambda x: x.kind == 'UNITS_INVALID' and x.severity == 1))",
+             "C11.units.no_recognised_unit_is_noted": "implies(original_tag.unit_class_tag and ' ' not in sv and (unit is None or len(unit) == 0),"
+                                                      " any_in(result, lambda x: x.kind == 'UNITS_MISSING'))",
+             "C11.units.number_with_valid_unit_has_no_unit_issue": "implies(original_tag.unit_class_tag and ' ' not in sv and unit is not None and len(unit) > 0,"
+                                                                   " all_in(result, lambda x: x.kind != 'UNITS_INVALID' and x.kind != 'UNITS_MISSING'))",
+             "C11.units.not_a_unit_tag_is_silent": "implies(not original_tag.unit_class_tag, len(result) == 0)",
+         },
+         assume=["the error_code override branch (a copy of the first issue under another code) is outside the contract (requires error_code is None)"])
